@@ -166,6 +166,12 @@ impl<'a> Ctx<'a> {
 			}
 			o => out.push(outcome_viol("slp_write", &cls, &o)),
 		}
+		// writing the same game object a second time gives the same bytes (nothing is consumed or left behind)
+		if let (Outcome::Ok(w1), Outcome::Ok(w2)) = (real::write_slp(&g), real::write_slp(&g)) {
+			if w1 != w2 {
+				out.push(viol("slp_write_twice", &cls, "mismatch", "two writes of the same game differ".into()));
+			}
+		}
 		// the same file arriving in short reads: still read, still written back identically
 		let frag = if self.built.bytes.len() % 2 == 0 { crate::stream::Frag::Random(self.built.bytes.len() as u64) } else { crate::stream::Frag::Fixed(1 + self.built.bytes.len() % 6) };
 		let mut r = crate::stream::FragReader::new(&self.built.bytes, frag.clone());
